@@ -1680,6 +1680,7 @@ fn exec(_op: &str, args: &[&str], expected: &str) -> Option<Verdict> {
     if _op == "oracle_validations" {
         let (v, j, r) = (ORACLE_VALIDATED.load(std::sync::atomic::Ordering::Relaxed), ORACLE_JUDGED.load(std::sync::atomic::Ordering::Relaxed), ABA_RERUNS.load(std::sync::atomic::Ordering::Relaxed));
         let text = format!("ok native-oracle-validated-against-model={v};judged-by-oracle={j};aba-reruns={r}");
+        if std::env::var_os("C01_STATS").is_some() { eprintln!("{text}"); }
         return Some(if v == 0 || r == 0 { Verdict::Mismatch { observed: text, detail: "the native shape oracle was not validated against the model in this run".into() } } else { Verdict::Match(text) });
     }
     Some(match open { Some(_) => Verdict::Open(observed), None => Verdict::Match(observed) })
